@@ -407,3 +407,33 @@ def support(ctx: Ctx, rule_fns, functions: set) -> int:
         sites.extend(keep)
         kept += len(keep)
     return kept
+
+
+def eq_constants(cond, var):
+    """the set of constants K when ``cond`` says 'var is one of K' -- spelt var == k, a disjunction of such, or (older
+    form) var in [k1, k2, ...]; None otherwise"""
+    if not isinstance(cond, tuple) or not cond:
+        return None
+    if cond[0] == "or":
+        out = set()
+        for d in cond[1]:
+            r = eq_constants(d, var)
+            if r is None:
+                return None
+            out |= r
+        return out
+    if cond[0] == "cmp" and cond[1] == "seq" and var in (cond[2], cond[3]):
+        other = cond[2] if cond[3] == var else cond[3]
+        return {other} if other[0] == "k" else None
+    if cond[0] == "eq0":
+        from framelint.canon import to_poly
+        p = to_poly(cond[1])
+        if len(p.t) <= 2 and p.t.get(((var, 1),)) in (1, -1):
+            c = p.const_value() * (-1 if p.t.get(((var, 1),)) == 1 else 1)
+            rest = [m for m in p.t if m != ((var, 1),) and m != ()]
+            if not rest:
+                from framelint.canon import k_num
+                return {k_num(c)}
+    if cond[0] == "cmp" and cond[1] == "in" and cond[2] == var and cond[3][0] in ("list", "tuple", "set"):
+        return set(cond[3][1])
+    return None
